@@ -308,6 +308,42 @@ theorem massInfo_spec (xs : List XMass) (xadd : Option (Bool × List XAdd))
       simp only
       cases List.find? (fun a => decide (a.index = m.id)) rows.reverse <;> rfl
 
+/-- The element names `load_csv` takes from AcqMethod.xml are the names of the batch's own mass
+table: whatever the document order of the `IcpmsElement` entries, if they are the mass table's
+elements (`sorted` lists them in mass-table order, strictly ascending in (MZ, SelectedMZ) — the
+method order) the renamed CSV columns carry the names the binary import reports.  MS/MS:
+`name ++ precursor ++ "->" ++ product`; single quad: `name ++ mz`. -/
+theorem acqNames_eq_massNames (msms : Bool) (tbl : List MassInfo) (es sorted : List AcqElement)
+    (hperm : es.Perm sorted)
+    (hsorted : sorted.Pairwise (fun a b => a.mz < b.mz ∨ (a.mz = b.mz ∧ a.selected < b.selected)))
+    (hmatch : List.Forall₂ (fun (m : MassInfo) (e : AcqElement) => e.name = m.name ∧
+      (if msms then m.mz2 = some e.mz ∧ m.mz = e.selected else m.mz2 = none ∧ m.mz = e.mz)) tbl sorted) :
+    acqElements msms es = tbl.map (·.str) := by
+  unfold acqElements
+  rw [sortElements_of_perm_strict es sorted hperm hsorted]
+  clear hperm hsorted
+  induction hmatch with
+  | nil => rfl
+  | @cons m e ms es' h _ ih =>
+    rw [List.map_cons, List.map_cons, ih]
+    congr 1
+    obtain ⟨hn, hm⟩ := h
+    cases msms with
+    | true =>
+      simp only [if_true] at hm ⊢
+      simp [MassInfo.str, hm.1, hm.2, hn]
+    | false =>
+      simp only [Bool.false_eq_true, if_false] at hm ⊢
+      simp [MassInfo.str, hm.1, hm.2, hn]
+
+example : acqElements true [⟨"Eu".toList, 153, 153⟩, ⟨"P".toList, 47, 31⟩]
+    = ["P31->47".toList, "Eu153->153".toList] := by
+  rw [acqNames_eq_massNames true
+    [⟨1, "P".toList, 1, 31, some 47⟩, ⟨2, "Eu".toList, 1, 153, some 153⟩]
+    _ [⟨"P".toList, 47, 31⟩, ⟨"Eu".toList, 153, 153⟩] (List.Perm.swap _ _ _) (by decide)
+    (by repeat constructor)]
+  decide
+
 /-! ## CSV import -/
 
 /-- `csv_valid_lines` yields exactly the header line and the data lines: preamble lines that do not
@@ -325,6 +361,77 @@ theorem validLines_spec (pre data foot : List Name) (header : Name)
 example : validLines false 0 ["D:\\x\\1.d".toList, "Intensity Vs Time,CPS".toList, "Time [Sec],P31".toList,
     "0.5,1.25".toList, "1.0,2.50".toList, "".toList, "   Printed: now".toList]
     = ["Time [Sec],P31".toList, "0.5,1.25".toList, "1.0,2.50".toList] := by decide
+
+/-- Reading one per-line CSV export: for every well-formed file (any preamble and footer that the
+line filter rejects, header and data fields free of commas, every data row as wide as the header,
+plain decimal fields, CR or no CR before the newline) the table delivered to `load_csv` has the
+header's names and, at row `scan`, column `col`, exactly the decimal value printed in field `col`
+of data row `scan` — no row or column is shifted, dropped or duplicated. -/
+theorem readCsv_spec (c : CsvFile) (W : CsvWF c) :
+    readCsv c.lines = some { names := c.header.map validName, rows := c.rows.map (fun r => r.filterMap parseDec) } := by
+  have hlines : c.lines = c.pre.map (· ++ c.eol) ++ (joinFields c.header ++ c.eol) ::
+      ((c.rows.map (fun r => joinFields r ++ c.eol)) ++ c.foot.map (· ++ c.eol)) := by
+    simp [CsvFile.lines, List.map_append, List.map_map, Function.comp_def]
+  have hv := validLines_spec (c.pre.map (· ++ c.eol)) (c.rows.map (fun r => joinFields r ++ c.eol))
+    (c.foot.map (· ++ c.eol)) (joinFields c.header ++ c.eol)
+    (by intro l hl; obtain ⟨x, hx, rfl⟩ := List.mem_map.mp hl; exact W.pre x hx)
+    W.head
+    (by
+      intro l hl
+      obtain ⟨r, hr, rfl⟩ := List.mem_map.mp hl
+      rw [count_line W r (by simp [hr]), count_line W c.header (by simp)])
+    (by
+      intro l hl
+      obtain ⟨x, hx, rfl⟩ := List.mem_map.mp hl
+      rw [count_line W c.header (by simp)]
+      exact W.foot x hx)
+  unfold readCsv
+  rw [hlines, hv]
+  simp only
+  rw [fields_line W c.header (by simp)]
+  have hfilter : (c.rows.map (fun r => joinFields r ++ c.eol)).filter
+      (fun l => !(stripChars (fun ch => ch = ' ' || ch = '\r' || ch = '\n') l).isEmpty)
+      = c.rows.map (fun r => joinFields r ++ c.eol) := by
+    apply List.filter_eq_self.mpr
+    intro l hl
+    obtain ⟨r, hr, rfl⟩ := List.mem_map.mp hl
+    rw [strip_line W r (by simp [hr])]
+    obtain ⟨hne, _, _⟩ := W.ends r (by simp [hr])
+    cases hj : joinFields r with
+    | nil => exact absurd hj hne
+    | cons a as => rfl
+  rw [hfilter, List.map_map]
+  have hrows : allSome (c.rows.map ((fun l => allSome ((fields l).map parseDec)) ∘ (fun r => joinFields r ++ c.eol)))
+      = some (c.rows.map (fun r => r.filterMap parseDec)) := by
+    apply allSome_map_of_forall
+    intro r hr
+    simp only [Function.comp]
+    rw [fields_line W r (by simp [hr])]
+    exact (allSome_parse r (W.parse r hr)).1
+  rw [hrows]
+  simp only
+  have hall : ((c.rows.map (fun r => r.filterMap parseDec)).all
+      (fun r => decide (r.length = (c.header.map validName).length))) = true := by
+    rw [List.all_eq_true]
+    intro x hx
+    obtain ⟨r, hr, rfl⟩ := List.mem_map.mp hx
+    simp [(allSome_parse r (W.parse r hr)).2, W.width r hr]
+  rw [hall]
+  rfl
+
+def exCsv : CsvFile :=
+  { pre := ["D:\\b\\1.d".toList, "Intensity Vs Time,CPS".toList], header := ["Time [Sec]".toList, "P31".toList],
+    rows := [["0.5253".toList, "38993.68".toList], ["1.0253".toList, "0.00".toList]],
+    foot := ["".toList, "   Printed:now".toList], eol := ['\r'] }
+
+/-- non-vacuity of `readCsv_spec`: one mass (the preamble line `Intensity Vs Time,CPS` has the
+header's comma count), CRLF line ends, blank and text footer -/
+example : CsvWF exCsv :=
+  ⟨by decide, by decide, by decide, by decide, by decide, by decide, by decide, by decide, by
+    intro r hr f hf
+    simp only [exCsv, List.mem_cons, List.not_mem_nil, or_false] at hr
+    rcases hr with rfl | rfl <;> simp only [List.mem_cons, List.not_mem_nil, or_false] at hf <;>
+      rcases hf with rfl | rfl <;> exact ⟨_, rfl⟩⟩
 
 /-- A line whose CSV is missing is zero-filled: every column (the time column included) of every
 scan is 0; a line whose CSV is present holds, at `[column][scan]`, field `column` of data row `scan`. -/
